@@ -1,35 +1,54 @@
 use std::collections::HashSet;
 
-use solang_parser::pt::{self, FunctionTy, Loc};
+use solang_parser::pt::{self, CodeLocation, Loc};
 use solang_parser::{self, pt::SourceUnit};
 
 use crate::analyzer::ast::{self, Target};
-use crate::analyzer::utils::get_32_byte_storage_variables;
 
 pub fn private_vars_leading_underscore(source_unit: SourceUnit) -> HashSet<Loc> {
     //Create a new hashset that stores the location of each qa target identified
     let mut qa_locations: HashSet<Loc> = HashSet::new();
 
-    let storage_variables = get_32_byte_storage_variables(source_unit.clone(), true, false);
+    //Look at the state variables of every contract, whatever their type (mappings, arrays and
+    //user defined types included)
+    let contract_definition_nodes =
+        ast::extract_target_from_node(Target::ContractDefinition, source_unit.into());
 
-    for (variable_name, variable_attribute) in storage_variables {
-        let (option_variable_attributes, loc) = variable_attribute;
-
-        if option_variable_attributes.is_some() {
-            let variable_attributes = option_variable_attributes.unwrap();
-
-            for attr in variable_attributes {
-                if let pt::VariableAttribute::Visibility(v) = attr {
-                    match v {
-                        pt::Visibility::Private(_) | pt::Visibility::Internal(_) => {
-                            if !variable_name.starts_with('_') {
-                                qa_locations.insert(loc);
-                            }
+    for contract_definition_node in contract_definition_nodes {
+        if let Some(pt::SourceUnitPart::ContractDefinition(box_contract_definition)) =
+            contract_definition_node.source_unit_part()
+        {
+            for contract_part in box_contract_definition.parts {
+                if let pt::ContractPart::VariableDefinition(box_variable_definition) = contract_part
+                {
+                    //Constants follow their own naming convention
+                    let mut is_constant = false;
+                    for attr in box_variable_definition.attrs.clone() {
+                        if let pt::VariableAttribute::Constant(_) = attr {
+                            is_constant = true;
                         }
-                        // Public variables
-                        _ => {
-                            if variable_name.starts_with('_') {
-                                qa_locations.insert(loc);
+                    }
+                    if is_constant {
+                        continue;
+                    }
+
+                    let variable_name = box_variable_definition.name.name;
+                    let loc = box_variable_definition.ty.loc();
+
+                    for attr in box_variable_definition.attrs {
+                        if let pt::VariableAttribute::Visibility(v) = attr {
+                            match v {
+                                pt::Visibility::Private(_) | pt::Visibility::Internal(_) => {
+                                    if !variable_name.starts_with('_') {
+                                        qa_locations.insert(loc);
+                                    }
+                                }
+                                // Public variables
+                                _ => {
+                                    if variable_name.starts_with('_') {
+                                        qa_locations.insert(loc);
+                                    }
+                                }
                             }
                         }
                     }
